@@ -55,9 +55,11 @@ class Server(object):
   def __init__(self):
     c2s_r, c2s_w = os.pipe()
     s2c_r, s2c_w = os.pipe()
+    import tempfile
+    self.errfile = tempfile.TemporaryFile()
     self.proc = subprocess.Popen([sys.executable, "-X", "utf8", "-c", BOOT, str(c2s_r), str(s2c_w)],
                                  pass_fds=(c2s_r, s2c_w), stdin=subprocess.DEVNULL,
-                                 stdout=subprocess.DEVNULL, stderr=subprocess.DEVNULL)
+                                 stdout=subprocess.DEVNULL, stderr=self.errfile)
     os.close(c2s_r)
     os.close(s2c_w)
     self.out = os.fdopen(c2s_w, "wb", 0)
@@ -131,6 +133,13 @@ class Server(object):
     except Broken as e:
       return "BROKEN", str(e), nested
 
+  def stderr_tail(self, n=1500):
+    try:
+      self.errfile.seek(0)
+      return self.errfile.read().decode("utf8", "replace")[-n:]
+    except Exception:   # pylint: disable=broad-except
+      return ""
+
   def close(self):
     try:
       self.out.close()
@@ -145,3 +154,874 @@ class Server(object):
       self.inp.close()
     except Exception:   # pylint: disable=broad-except
       pass
+
+
+# ---------------------------------------------------------------------------------------------
+# Tokens of encoded values.  Leaves go through tokens.token(); containers are rendered flat and
+# iteratively (encoded recursive containers are ~1000 levels deep, and a nested JSON rendering would
+# double its escaping at every level).  Exact classes matter to marshal, so anything that is not
+# exactly NoneType/bool/int/float/str/bytes/list/tuple/dict is marked "!ClassName".
+_EXACT_LEAVES = (type(None), bool, int, float, str, bytes)
+
+
+def _leaf(v, odd, oddstr):
+  import tokens
+  t = type(v)
+  if t in _EXACT_LEAVES:
+    tok = tokens.token(v)
+  else:
+    odd.add(t.__name__)
+    if isinstance(v, str):
+      oddstr.add(t.__name__)
+    try:
+      base = tokens.token(v) if isinstance(v, (bool, int, float, str, bytes)) else ""
+    except Exception:   # pylint: disable=broad-except
+      base = ""
+    tok = "!%s:%s" % (t.__name__.encode("unicode_escape").decode("ascii"), base)
+  return tok.replace("%", "%25").replace(",", "%2C").replace("[", "%5B").replace("]", "%5D") \
+            .replace("(", "%28").replace(")", "%29").replace("{", "%7B").replace("}", "%7D").replace("=", "%3D")
+
+
+def flat_token(v):
+  """(token, sorted odd class names, depth, sorted odd str-subclass names) of an encoded value; no recursion."""
+  odd = set()
+  oddstr = set()
+  out = []
+  maxdepth = 0
+  # work items: ("v", value, depth) or ("t", text)
+  stack = [("v", v, 0)]
+  while stack:
+    item = stack.pop()
+    if item[0] == "t":
+      out.append(item[1])
+      continue
+    _, x, d = item
+    maxdepth = max(maxdepth, d)
+    if isinstance(x, (list, tuple)):
+      if type(x) not in (list, tuple):
+        odd.add(type(x).__name__)
+      op, cl = ("[", "]") if isinstance(x, list) else ("(", ")")
+      out.append(op)
+      stack.append(("t", cl))
+      for k, el in enumerate(reversed(x)):
+        stack.append(("v", el, d + 1))
+        if k < len(x) - 1:
+          stack.append(("t", ","))
+    elif isinstance(x, dict):
+      if type(x) is not dict:
+        odd.add(type(x).__name__)
+      keyed = []
+      for key, val in x.items():
+        keyed.append((_leaf(key, odd, oddstr) if not isinstance(key, (list, tuple, dict)) else "!container", val))
+      keyed.sort(key=lambda p: p[0])
+      out.append("{")
+      stack.append(("t", "}"))
+      for k, (kt, val) in enumerate(reversed(keyed)):
+        stack.append(("v", val, d + 1))
+        stack.append(("t", kt + "="))
+        if k < len(keyed) - 1:
+          stack.append(("t", ","))
+    else:
+      out.append(_leaf(x, odd, oddstr))
+  return "".join(out), sorted(odd), maxdepth, sorted(oddstr)
+
+
+def roundtrip_record(where, v):
+  """The facts of one cell value v: encode, marshal, decode, encode again.  No judgement."""
+  import objtypes
+  enc = objtypes.encode_object(v)
+  etok, odd, depth, oddstr = flat_token(enc)
+  rec = {"where": where, "enc": etok, "enc2": "", "dumps": False, "back": "", "odd": odd, "oddstr": oddstr,
+         "depth": depth, "err": ""}
+  try:
+    blob = marshal.dumps(enc, 2)
+    rec["dumps"] = True
+    rec["back"] = flat_token(marshal.loads(blob))[0]
+  except Exception as e:   # pylint: disable=broad-except
+    rec["err"] = "%s %s" % (type(e).__name__, e)
+  try:
+    enc2 = objtypes.encode_object(objtypes.decode_object(enc))
+    rec["enc2"] = flat_token(enc2)[0]
+  except Exception as e:   # pylint: disable=broad-except
+    rec["enc2"] = "!raised " + type(e).__name__
+  return rec
+
+
+# ---------------------------------------------------------------------------------------------
+# Value expressions: the replayable form of a hostile value.  to_source() renders the Python text a
+# formula uses to build it (the formula is self-contained: helper classes are defined in its body);
+# to_wire() renders the plain subset as the object Node would put into a user action.
+PRE = {
+  "MyStr": ("class MyStr(str):\n  pass", []),
+  "MyInt": ("class MyInt(int):\n  pass", []),
+  "MyFloat": ("class MyFloat(float):\n  pass", []),
+  "MyBytes": ("class MyBytes(bytes):\n  pass", []),
+  "MyList": ("class MyList(list):\n  pass", []),
+  "MyTuple": ("class MyTuple(tuple):\n  pass", []),
+  "MyDict": ("class MyDict(dict):\n  pass", []),
+  # str(x) is x itself, a str subclass instance
+  "SelfStr": ("class SelfStr(str):\n  def __str__(self):\n    return self", []),
+  # repr(x) is a str subclass instance
+  "ReprSub": ("class ReprSub(object):\n  def __repr__(self):\n    return MyStr('r')", ["MyStr"]),
+  "BadRepr": ("class BadRepr(object):\n  def __repr__(self):\n    raise ValueError('no repr')", []),
+  "BadStrRepr": ("class BadStrRepr(str):\n  def __str__(self):\n    raise ValueError('no str')\n"
+                 "  def __repr__(self):\n    raise ValueError('no repr')", []),
+  "BadEq": ("class BadEq(object):\n  def __eq__(self, other):\n    raise ValueError('no eq')\n"
+            "  def __hash__(self):\n    return 1", []),
+  "DecodeSub": ("class DecodeSub(bytes):\n  def decode(self, *a, **kw):\n    return MyStr('d')", ["MyStr"]),
+  "IntNoInt": ("class IntNoInt(int):\n  def __int__(self):\n    raise ValueError('no int')", []),
+  "FloatNoFloat": ("class FloatNoFloat(float):\n  def __float__(self):\n    raise ValueError('no float')", []),
+  "ReprLong": ("class ReprLong(object):\n  def __repr__(self):\n    return 'x' * 100000", []),
+  "ReprNonAscii": ("class ReprNonAscii(object):\n  def __repr__(self):\n    return u'\\ud800\\u00e9\\U0001F600'", []),
+  "Color": ("import enum\nclass Color(enum.IntEnum):\n  RED = 1", []),
+  "Tag": ("import enum\nclass Tag(str, enum.Enum):\n  A = 'a'", []),
+  "Flag": ("import enum\nclass Flag(enum.Enum):\n  ON = 1", []),
+  "StrErr": ("class StrErr(Exception):\n  def __str__(self):\n    return MyStr('m')", ["MyStr"]),
+  "BadStrErr": ("class BadStrErr(Exception):\n  def __str__(self):\n    raise ValueError('no str')", []),
+  "SubNameErr": ("class SubNameErr(Exception):\n  pass\nSubNameErr.__name__ = MyStr('N')", ["MyStr"]),
+  "Point": ("import collections\nPoint = collections.namedtuple('Point', ['x', 'y'])", []),
+  "_reclist": ("def _reclist():\n  l = [1]\n  l.append(l)\n  return l", []),
+  "_recdict": ("def _recdict():\n  d = {}\n  d['a'] = d\n  return d", []),
+  "_rectuple": ("def _rectuple():\n  l = []\n  t = (l, 1)\n  l.append(t)\n  return t", []),
+  "_deep": ("def _deep(n, kind):\n  v = 0\n  for i in range(n):\n"
+            "    v = [v] if kind == 'list' else ((v,) if kind == 'tuple' else {'k': v})\n  return v", []),
+  "_gen": ("def _gen():\n  yield 1", []),
+}
+SUBCLASSES = {"MyStr": "str", "SelfStr": "str", "BadStrRepr": "str", "MyInt": "int", "IntNoInt": "int",
+              "MyFloat": "float", "FloatNoFloat": "float", "MyBytes": "bytes", "DecodeSub": "bytes",
+              "MyList": "list", "MyTuple": "tuple", "MyDict": "dict"}
+OBJECTS = {
+  "object": ("object()", []), "reprsub": ("ReprSub()", ["ReprSub"]), "badrepr": ("BadRepr()", ["BadRepr"]),
+  "badeq": ("BadEq()", ["BadEq"]), "reprlong": ("ReprLong()", ["ReprLong"]),
+  "reprnonascii": ("ReprNonAscii()", ["ReprNonAscii"]),
+  "generator": ("_gen()", ["_gen"]), "genexpr": ("(i for i in range(3))", []),
+  "lambda": ("(lambda: 1)", []), "builtin": ("len", []), "class": ("int", []), "localclass": ("MyStr", ["MyStr"]),
+  "module": ("__import__('datetime')", []), "ellipsis": ("Ellipsis", []), "notimplemented": ("NotImplemented", []),
+  "complex": ("complex(1, 2)", []), "decimal": ("__import__('decimal').Decimal('1.5')", []),
+  "fraction": ("__import__('fractions').Fraction(1, 3)", []), "range": ("range(3)", []),
+  "bytearray": ("bytearray(b'ab')", []), "memoryview": ("memoryview(b'ab')", []),
+  "time": ("__import__('datetime').time(1, 2, 3)", []), "timedelta": ("__import__('datetime').timedelta(1, 2, 3)", []),
+  "intenum": ("Color.RED", ["Color"]), "strenum": ("Tag.A", ["Tag"]), "enum": ("Flag.ON", ["Flag"]),
+  "exception": ("ValueError('x', 1)", []), "namedtuple": ("Point(1, 'a')", ["Point"]),
+  "deque": ("__import__('collections').deque([1, 2])", []),
+  "ordereddict": ("__import__('collections').OrderedDict([('a', 1)])", []),
+  "defaultdict": ("__import__('collections').defaultdict(int, {'a': 1})", []),
+  "counter": ("__import__('collections').Counter('aab')", []),
+  "type_none": ("type(None)", []), "iter": ("iter([1, 2])", []), "dictkeys": ("{'a': 1}.keys()", []),
+  "slice": ("slice(1, 2)", []), "property": ("property()", []),
+  "reclist": ("_reclist()", ["_reclist"]), "recdict": ("_recdict()", ["_recdict"]),
+  "rectuple": ("_rectuple()", ["_rectuple"]),
+  "rec": ("rec", []), "table": ("table", []), "usertable": ("W", []), "all": ("W.all", []),
+  "lookupone": ("W.lookupOne(id=1)", []), "lookupmissing": ("W.lookupOne(id=99)", []),
+  "lookuprecords": ("W.lookupRecords(n=0)", []), "lookupnone": ("W.lookupRecords(n=-1)", []),
+  "reccol": ("W.all.n", []), "recid": ("rec.id", []),
+  "alttext": ("__import__('objtypes').AltText('t')", []),
+  "alttextsub": ("__import__('objtypes').AltText(MyStr('t'))", ["MyStr"]),
+  "pending": ("__import__('objtypes')._pending_sentinel", []),
+  "censored": ("__import__('objtypes')._censored_sentinel", []),
+  "unmarshallable": ("__import__('objtypes').UnmarshallableValue('u')", []),
+  "recordstub": ("__import__('objtypes').RecordStub('W', 1)", []),
+  "recordsetstub": ("__import__('objtypes').RecordSetStub('W', [1, 2])", []),
+  "raisedexc": ("__import__('objtypes').RaisedException(ValueError('v'), user_input=set([1]))", []),
+  "recordlist": ("__import__('objtypes').RecordList([1, 2])", []),
+}
+RAISABLE = {"ValueError": [], "KeyError": [], "TypeError": [], "ZeroDivisionError": [], "StrErr": ["StrErr"],
+            "BadStrErr": ["BadStrErr"], "SubNameErr": ["SubNameErr"], "UnicodeDecodeError5": [],
+            "SystemError": [], "RecursionError": []}       # (MemoryError is re-raised by the engine on purpose)
+
+
+def _float_src(s):
+  if s in ("nan", "inf", "-inf"):
+    return "float(%r)" % s
+  return "float.fromhex(%r)" % s
+
+
+def to_source(spec, need):
+  k = spec[0]
+  if k == "none":
+    return "None"
+  if k == "bool":
+    return "True" if spec[1] else "False"
+  if k == "int":
+    return "(%s)" % spec[1]
+  if k == "pow":
+    return "(%d ** %d)" % (spec[1], spec[2])
+  if k == "float":
+    return _float_src(spec[1])
+  if k == "str":
+    return ascii(spec[1])
+  if k == "bytes":
+    return "bytes.fromhex(%r)" % spec[1]
+  if k in ("list", "tuple", "set", "frozenset"):
+    inner = ", ".join(to_source(s, need) for s in spec[1])
+    if k == "list":
+      return "[" + inner + "]"
+    if k == "tuple":
+      return "(" + inner + ("," if len(spec[1]) == 1 else "") + ")"
+    return "%s([%s])" % (k, inner)
+  if k == "dict":
+    return "{" + ", ".join("%s: %s" % (to_source(a, need), to_source(b, need)) for a, b in spec[1]) + "}"
+  if k == "sub":
+    need.add(spec[1])
+    return "%s(%s)" % (spec[1], to_source(spec[2], need))
+  if k == "obj":
+    src, deps = OBJECTS[spec[1]]
+    need.update(deps)
+    return src
+  if k == "deep":
+    need.add("_deep")
+    return "_deep(%d, %r)" % (spec[1], spec[2])
+  if k == "date":
+    return "__import__('datetime').date(%d, %d, %d)" % tuple(spec[1:4])
+  if k == "datetime":
+    tz = spec[8]
+    if tz == "":
+      tzs = ""
+    elif tz[0] in "+-":
+      tzs = ", tzinfo=__import__('datetime').timezone(__import__('datetime').timedelta(minutes=%d))" % (
+        (-1 if tz[0] == "-" else 1) * (int(tz[1:3]) * 60 + int(tz[4:6])))
+    else:
+      tzs = ", tzinfo=__import__('moment').tzinfo(%r)" % tz
+    return "__import__('datetime').datetime(%s%s)" % (", ".join(str(x) for x in spec[1:8]), tzs)
+  raise SystemExit("unknown value expression %r" % (spec,))
+
+
+def _preamble(need):
+  done, lines = set(), []
+
+  def add(name):
+    if name in done:
+      return
+    done.add(name)
+    src, deps = PRE[name]
+    for d in deps:
+      add(d)
+    lines.append(src)
+  for n in sorted(need):
+    add(n)
+  return "\n".join(lines)
+
+
+def formula_of(top):
+  """top = ["ret", expr] | ["raise", excname, [exprs]]  ->  formula text (reads $A, so it is recalculated)."""
+  need = set()
+  if top[0] == "ret":
+    body = "return " + to_source(top[1], need)
+  else:
+    need.update(RAISABLE[top[1]])
+    args = ", ".join(to_source(a, need) for a in top[2])
+    if top[1] == "ZeroDivisionError":
+      body = "return 1 / 0"
+    elif top[1] == "UnicodeDecodeError5":
+      body = "return b'\\xff'.decode('utf8')"
+    else:
+      # (a formula must end in an expression or contain a `return`)
+      body = "if x is not Ellipsis:\n  raise %s(%s)\nreturn None" % (top[1], args)
+  pre = _preamble(need)
+  return "x = $A\n" + (pre + "\n" if pre else "") + body
+
+
+def to_wire(spec):
+  k = spec[0]
+  if k == "none":
+    return None
+  if k == "bool":
+    return bool(spec[1])
+  if k == "int":
+    return int(spec[1])
+  if k == "pow":
+    return spec[1] ** spec[2]
+  if k == "float":
+    return float(spec[1]) if spec[1] in ("nan", "inf", "-inf") else float.fromhex(spec[1])
+  if k == "str":
+    return spec[1]
+  if k == "bytes":
+    return bytes.fromhex(spec[1])
+  if k == "list":
+    return [to_wire(s) for s in spec[1]]
+  if k == "dict":
+    return {to_wire(a): to_wire(b) for a, b in spec[1]}
+  if k == "deep":
+    v = 0
+    for _ in range(spec[1]):
+      v = ["L", v] if spec[2] == "list" else ["O", {"k": v}]
+    return v
+  raise SystemExit("value expression %r cannot be sent by Node" % (spec,))
+
+
+# ---------------------------------------------------------------------------------------------
+# One Node-side session over a live server: the witness table W, the plain table P, the hostile
+# table H (for the scripts), and the bookkeeping of the witness counter.
+H_FORMULA = "x = $A\nclass MyStr(str):\n  pass\nreturn {MyStr('k'): $A}"
+COL = lambda cid, typ, formula=None: {"id": cid, "type": typ, "isFormula": formula is not None,
+                                      "formula": formula or ""}
+SETUP = [
+  [["InitNewDoc"]],
+  [["AddTable", "W", [COL("n", "Int")]], ["AddRecord", "W", None, {"n": 0}]],
+  [["AddTable", "P", [COL("A", "Int"), COL("C", "Text")]],
+   ["BulkAddRecord", "P", [None, None, None], {"A": [1, 2, 3]}]],
+  [["AddTable", "H", [COL("A", "Int"), COL("F", "Any", H_FORMULA), COL("C", "Text")]]],
+]
+
+
+class SetupFailed(Exception):
+  pass
+
+
+class Session(object):
+  def __init__(self):
+    self.srv = Server()
+    self.wn = 0
+    self.nonce = 0
+    r = self.srv.call("load_empty")
+    if r[0] != "DATA":
+      time.sleep(0.5)
+      raise SetupFailed("load_empty: %r rc=%r\n%s" % (r[:2], self.srv.proc.poll(), self.srv.stderr_tail()))
+    for bundle in SETUP:
+      r = self.srv.call("apply_user_actions", bundle)
+      if r[0] != "DATA":
+        raise SetupFailed("%r: %r" % (bundle[0][:2], r[:2]))
+    self.w, ok = self.probe()
+    if not ok or self.w != "#0":
+      raise SetupFailed("witness probe: %r" % (self.w,))
+
+  def probe(self):
+    """Reads the witness through the pipe: (token of W.n[1] or "?", the reply was the reply to THIS call)."""
+    import tokens
+    kind, body, _ = self.srv.call("fetch_table", "W")
+    try:
+      if kind == "DATA" and body[0] == "TableData" and body[1] == "W" and list(body[2]) == [1]:
+        return tokens.token(body[3]["n"][0]), True
+    except Exception:   # pylint: disable=broad-except
+      pass
+    return "?", False
+
+  def witness(self):
+    self.wn += 1
+    return ["UpdateRecord", "W", 1, {"n": self.wn}]
+
+  def has_witness(self, body):
+    """The DATA reply of apply_user_actions lists the witness update among its stored actions."""
+    try:
+      for _env, act in body["stored"]:
+        if list(act[:3]) == ["UpdateRecord", "W", 1] and act[3] == {"n": self.wn}:
+          return True
+    except Exception:   # pylint: disable=broad-except
+      pass
+    return False
+
+  def observed(self, kind, name, args, responder=None, expect_nested=0):
+    """Issue one call and record what Node can see of it."""
+    w0 = self.w
+    reply, body, nested = self.srv.call(name, *args, responder=responder)
+    hasw = reply == "DATA" and name == "apply_user_actions" and self.has_witness(body)
+    w1, sync = self.probe()
+    if kind == "echo" and reply == "DATA" and body != args[0]:
+      sync = False          # the reply belongs to some other call
+    self.w = w1 if w1 != "?" else self.w
+    return {"kind": kind, "reply": reply, "w0": w0, "w1": w1, "hasw": bool(hasw), "sync": bool(sync),
+            "nested": len(nested), "text": (str(body)[:200] if reply != "DATA" else "")}, body
+
+  def close(self):
+    self.srv.close()
+
+
+def convert_responder(answer, inner_results=None):
+  """Node's convertFromColumn: answers the nested CALL with DATA / EXC, optionally calling back in first."""
+  def responder(name, args, srv):
+    if name != "convertFromColumn":
+      return EXC, "unexpected external call %s" % name
+    if answer == "nested":
+      inner = srv.call("fetch_table", "P")
+      if inner_results is not None:
+        inner_results.append(inner[0])
+    if answer == "EXC":
+      return EXC, "conversion failed in Node"
+    n = len(args[5])
+    return DATA, ["c%d" % i for i in range(n)]
+  return responder
+
+
+def run_script(sess, script):
+  """One script of MC_Rpc: a sequence of call classes, realised on the tables W / P / H."""
+  calls = []
+  for kind in script:
+    if sess.srv.dead:
+      calls.append({"kind": kind, "reply": "BROKEN", "w0": sess.w, "w1": "?", "hasw": False, "sync": False,
+                    "nested": 0, "text": "server is gone"})
+      continue
+    inner = []
+    if kind == "apply_ok":
+      c, _ = sess.observed(kind, "apply_user_actions", [[sess.witness(), ["UpdateRecord", "P", 1, {"A": sess.wn}]]])
+    elif kind == "apply_bad":
+      c, _ = sess.observed(kind, "apply_user_actions", [[sess.witness(), ["UpdateRecord", "Nope", 1, {"A": 1}]]])
+    elif kind in ("apply_ext_data", "apply_ext_exc", "apply_ext_nested"):
+      answer = {"apply_ext_data": "DATA", "apply_ext_exc": "EXC", "apply_ext_nested": "nested"}[kind]
+      c, _ = sess.observed(kind, "apply_user_actions",
+                           [[sess.witness(), ["ConvertFromColumn", "P", "A", "C", "Text", "", 0]]],
+                           responder=convert_responder(answer, inner))
+      if c["nested"] != 1 or (answer == "nested" and inner != ["DATA"]):
+        c["sync"] = False
+    elif kind == "apply_hostile":
+      c, _ = sess.observed(kind, "apply_user_actions", [[sess.witness(), ["AddRecord", "H", None, {"A": sess.wn}]]])
+    elif kind == "apply_ext_hostile":
+      c, _ = sess.observed(kind, "apply_user_actions",
+                           [[sess.witness(), ["ConvertFromColumn", "H", "F", "C", "Text", "", 0]]],
+                           responder=convert_responder("DATA"))
+    elif kind == "fetch_ok":
+      c, _ = sess.observed(kind, "fetch_table", ["P"])
+    elif kind == "fetch_bad":
+      c, _ = sess.observed(kind, "fetch_table", ["Nope"])
+    elif kind == "fetch_hostile":
+      c, _ = sess.observed(kind, "fetch_table", ["H"])
+    elif kind == "fetch_meta":
+      c, _ = sess.observed(kind, "fetch_meta_tables", [])
+    elif kind == "echo":
+      sess.nonce += 1
+      c, _ = sess.observed(kind, "test_echo", [["nonce", sess.nonce]])
+    elif kind == "fail":
+      c, _ = sess.observed(kind, "test_fail", ["on purpose"])
+    elif kind == "unknown":
+      c, _ = sess.observed(kind, "no_such_function", [1])
+    else:
+      raise SystemExit("unknown call class %r" % (kind,))
+    calls.append(c)
+  return calls
+
+
+# ---------------------------------------------------------------------------------------------
+# One hostile value: over the pipe (calls) and in-process (the cell value itself, for the round trip)
+class Local(object):
+  """An in-process engine with the same tables; used only to get hold of the cell value object."""
+  def __init__(self):
+    import adapter
+    self.adapter = adapter
+    self.stale = False
+    self.eng = adapter.new_engine()
+    for bundle in SETUP[:2]:
+      adapter.apply(self.eng, bundle)
+
+  def cell(self, table, col, row=1):
+    return self.eng.tables[table].get_column(col).raw_get(row)
+
+
+def value_actions(table, inp):
+  """The user actions of one value case (shared by the pipe run and the in-process run)."""
+  coltype = inp.get("coltype", "Any")
+  if inp["mode"] == "formula":
+    cols = [COL("A", "Int"), COL("V", coltype, formula_of(inp["value"])), COL("C", "Text")]
+    add = {"A": 1}
+  else:
+    cols = [COL("A", "Int"), COL("V", coltype), COL("C", "Text")]
+    add = {"A": 1, "V": to_wire(inp["value"])}
+  return {"addtable": ["AddTable", table, cols], "addrecord": ["AddRecord", table, None, add],
+          "update": ["UpdateRecord", table, 1, {"A": 2}],
+          "convert": ["ConvertFromColumn", table, "V", "C", "Text", "", 0],
+          "remove": ["RemoveTable", table]}
+
+
+def run_value(sess, local, inp, k):
+  table = "T%d" % k
+  acts = value_actions(table, inp)
+  calls = []
+  steps = [("apply_hostile", "apply_user_actions", "addtable"), ("apply_hostile", "apply_user_actions", "addrecord"),
+           ("fetch_hostile", "fetch_table", None), ("apply_hostile", "apply_user_actions", "update"),
+           ("apply_ext_hostile", "apply_user_actions", "convert"), ("fetch_hostile", "fetch_table", None),
+           ("fetch_meta", "fetch_meta_tables", None), ("apply_hostile", "apply_user_actions", "remove")]
+  skip = False
+  for kind, name, key in steps:
+    if sess.srv.dead:
+      break
+    if skip and key != "remove":
+      continue          # the row of this case does not exist: the remaining calls would not be valid ones
+    if name == "apply_user_actions":
+      c, body = sess.observed(kind, name, [[sess.witness(), acts[key]]],
+                              responder=convert_responder("DATA") if key == "convert" else None)
+      c["step"] = key
+      if key in ("addtable", "addrecord") and c["reply"] != "DATA" and c["w0"] == c["w1"]:
+        skip = True
+    elif name == "fetch_table":
+      c, body = sess.observed(kind, name, [table])
+      c["step"] = "fetch"
+    else:
+      c, body = sess.observed(kind, name, [])
+      c["step"] = "meta"
+    calls.append(c)
+  # in-process: the cell value object and its round trip
+  rts = []
+  local_exc = ""
+  try:
+    local.adapter.apply(local.eng, [acts["addtable"]])
+    try:
+      local.adapter.apply(local.eng, [acts["addrecord"]])
+      rts.append(roundtrip_record(inp["mode"], local.cell(table, "V")))
+      local.adapter.apply(local.eng, [acts["update"]])
+      r2 = roundtrip_record(inp["mode"] + "-recalc", local.cell(table, "V"))
+      if r2["enc"] != rts[0]["enc"]:
+        rts.append(r2)
+    finally:
+      local.adapter.apply(local.eng, [acts["remove"]])
+  except Exception as e:   # pylint: disable=broad-except
+    local_exc = "%s %s" % (type(e).__name__, str(e)[:200])
+    local.stale = True       # an exception may leave the engine half way: the next case gets a fresh one
+  return {"src": inp.get("src", "replay"), "id": inp.get("id", ""), "spec": json.dumps(inp, sort_keys=True),
+          "calls": calls, "rts": rts, "local_exc": local_exc}
+
+
+# ---------------------------------------------------------------------------------------------
+# The catalogue (every run) and the Hypothesis strategies (seeded)
+def fhex(f):
+  return repr(f) if f != f or f in (float("inf"), float("-inf")) else f.hex()
+
+
+I = lambda n: ["int", str(n)]
+F = lambda f: ["float", fhex(f)]
+S = lambda s: ["str", s]
+B = lambda b: ["bytes", b.hex()]
+O = lambda n: ["obj", n]
+SUB = lambda c, e: ["sub", c, e]
+RET = lambda e: ["ret", e]
+ZONES = ["", "UTC", "America/New_York", "Asia/Kolkata", "Pacific/Auckland", "Pacific/Kiritimati", "+02:00", "-11:30"]
+
+
+def DT(y, mo, d, h=0, mi=0, s=0, us=0, tz=""):
+  return ["datetime", y, mo, d, h, mi, s, us, tz]
+
+
+def catalogue():
+  """[(name, mode, value)]: the hostile values the property's quantifier names, one by one."""
+  c = []
+  f = lambda name, top: c.append((name, "formula", top))
+  w = lambda name, spec: c.append((name, "cell", spec))
+  # subclasses of str / int / float / bytes and of containers
+  f("MyStr('x')", RET(SUB("MyStr", S("x"))))
+  f("MyStr(non-ascii)", RET(SUB("MyStr", S(u"é\U0001F600"))))
+  f("SelfStr('x')", RET(SUB("SelfStr", S("x"))))
+  f("BadStrRepr('x')", RET(SUB("BadStrRepr", S("x"))))
+  f("MyInt(5)", RET(SUB("MyInt", I(5))))
+  f("MyInt(2**70)", RET(SUB("MyInt", I(2 ** 70))))
+  f("IntNoInt(5)", RET(SUB("IntNoInt", I(5))))
+  f("MyFloat(5.5)", RET(SUB("MyFloat", F(5.5))))
+  f("MyFloat(nan)", RET(SUB("MyFloat", F(float("nan")))))
+  f("FloatNoFloat(1.5)", RET(SUB("FloatNoFloat", F(1.5))))
+  f("MyBytes(b'ab')", RET(SUB("MyBytes", B(b"ab"))))
+  f("MyBytes(b'\\xff')", RET(SUB("MyBytes", B(b"\xff"))))
+  f("DecodeSub(b'ab')", RET(SUB("DecodeSub", B(b"ab"))))
+  f("MyList([1, 'a'])", RET(SUB("MyList", ["list", [I(1), S("a")]])))
+  f("MyTuple((1, 'a'))", RET(SUB("MyTuple", ["tuple", [I(1), S("a")]])))
+  f("MyDict({'a': 1})", RET(SUB("MyDict", ["dict", [[S("a"), I(1)]]])))
+  f("IntEnum member", RET(O("intenum")))
+  f("str-Enum member", RET(O("strenum")))
+  f("Enum member", RET(O("enum")))
+  # dicts with odd keys
+  f("{1: 2}", RET(["dict", [[I(1), I(2)]]]))
+  f("{None: 1}", RET(["dict", [[["none"], I(1)]]]))
+  f("{(1, 2): 3}", RET(["dict", [[["tuple", [I(1), I(2)]], I(3)]]]))
+  f("{b'k': 1}", RET(["dict", [[B(b"k"), I(1)]]]))
+  f("{'a': 1, 2: 3}", RET(["dict", [[S("a"), I(1)], [I(2), I(3)]]]))
+  f("{MyStr('k'): 1}", RET(["dict", [[SUB("MyStr", S("k")), I(1)]]]))
+  f("{str-Enum member: 1}", RET(["dict", [[O("strenum"), I(1)]]]))
+  f("{'k': {MyStr('k'): 1}}", RET(["dict", [[S("k"), ["dict", [[SUB("MyStr", S("k")), I(1)]]]]]]))
+  f("[{MyStr('k'): 1}]", RET(["list", [["dict", [[SUB("MyStr", S("k")), I(1)]]]]]))
+  f("{'': 1, '\\x00': 2, lone surrogate: 3}", RET(["dict", [[S(""), I(1)], [S("\x00"), I(2)], [S(u"\ud800"), I(3)]]]))
+  f("{'a': {1, 2}}", RET(["dict", [[S("a"), ["set", [I(1), I(2)]]]]]))
+  f("OrderedDict", RET(O("ordereddict")))
+  f("defaultdict", RET(O("defaultdict")))
+  f("Counter", RET(O("counter")))
+  # sets, frozensets
+  f("{1, 2}", RET(["set", [I(1), I(2)]]))
+  f("set()", RET(["set", []]))
+  f("frozenset(['a'])", RET(["frozenset", [S("a")]]))
+  f("[{1}, frozenset()]", RET(["list", [["set", [I(1)]], ["frozenset", []]]]))
+  # integers and floats
+  for n in (2 ** 31 - 1, 2 ** 31, -2 ** 31, -2 ** 31 - 1, 2 ** 53 + 1, 2 ** 63, 2 ** 64, 2 ** 70, -2 ** 70, 2 ** 1024):
+    f("int %d" % n if abs(n) < 2 ** 71 else "int 2**1024", RET(I(n)))
+  f("10**5000", RET(["pow", 10, 5000]))
+  f("[2**70, -2**70]", RET(["list", [I(2 ** 70), I(-2 ** 70)]]))
+  for x in (float("nan"), float("inf"), float("-inf"), -0.0, 5e-324, 1.7976931348623157e308, 2.0 ** 53, 0.1):
+    f("float %r" % x, RET(F(x)))
+  f("[nan, inf, -inf]", RET(["list", [F(float("nan")), F(float("inf")), F(float("-inf"))]]))
+  f("True", RET(["bool", True]))
+  f("None", RET(["none"]))
+  # text and bytes
+  for s in ("", "x", u"é", u"\U0001F600", u"\ud800", u"\udfff\ud800", "\x00", "a\x00b", "x" * 70000, "L", "\n\t\\'\""):
+    f("str %s" % ascii(s)[:24], RET(S(s)))
+  for b in (b"", b"ab", b"\xff", b"\x00", b"\xc3\xa9", b"\xed\xa0\x80"):
+    f("bytes %r" % b, RET(B(b)))
+  f("bytearray", RET(O("bytearray")))
+  f("memoryview", RET(O("memoryview")))
+  # containers: empty, code-like, nested, recursive, deep
+  f("[]", RET(["list", []]))
+  f("()", RET(["tuple", []]))
+  f("{}", RET(["dict", []]))
+  f("['L', 1]", RET(["list", [S("L"), I(1)]]))
+  f("['D', 0, 'UTC']", RET(["list", [S("D"), I(0), S("UTC")]]))
+  f("('E', 'x')", RET(["tuple", [S("E"), S("x")]]))
+  f("[[], [[]], ()]", RET(["list", [["list", []], ["list", [["list", []]]], ["tuple", []]]]))
+  f("[None, True, 1, 1.5, 'a', b'b']", RET(["list", [["none"], ["bool", True], I(1), F(1.5), S("a"), B(b"b")]]))
+  f("recursive list", RET(O("reclist")))
+  f("recursive dict", RET(O("recdict")))
+  f("recursive tuple in list", RET(O("rectuple")))
+  for n in (50, 200, 900, 1100, 2500):
+    f("%d-deep list" % n, RET(["deep", n, "list"]))
+  f("200-deep tuple", RET(["deep", 200, "tuple"]))
+  f("200-deep dict", RET(["deep", 200, "dict"]))
+  f("600-deep dict", RET(["deep", 600, "dict"]))
+  f("900-deep dict", RET(["deep", 900, "dict"]))
+  f("990-deep dict", RET(["deep", 990, "dict"]))
+  f("[990-deep dict]", RET(["list", [["deep", 990, "dict"]]]))
+  f("namedtuple", RET(O("namedtuple")))
+  f("deque", RET(O("deque")))
+  f("range(3)", RET(O("range")))
+  # dates and datetimes
+  for d in ((2020, 2, 29), (1, 1, 1), (9999, 12, 31), (1969, 12, 31), (1970, 1, 1)):
+    f("date%r" % (d,), RET(["date"] + list(d)))
+  f("naive datetime", RET(DT(2020, 1, 2, 3, 4, 5, 678901)))
+  f("datetime.min", RET(DT(1, 1, 1)))
+  f("datetime.max", RET(DT(9999, 12, 31, 23, 59, 59, 999999)))
+  f("datetime max - 1 s", RET(DT(9999, 12, 31, 23, 59, 58, 999999)))
+  for tz in ZONES[1:]:
+    f("datetime %s" % tz, RET(DT(2020, 3, 8, 2, 30, 0, 1, tz)))
+  f("datetime.min New_York", RET(DT(1, 1, 1, 0, 0, 0, 0, "America/New_York")))
+  f("datetime.min Kolkata", RET(DT(1, 1, 1, 0, 0, 0, 0, "Asia/Kolkata")))
+  f("datetime.max New_York", RET(DT(9999, 12, 31, 23, 0, 0, 0, "America/New_York")))
+  f("datetime.max Kolkata", RET(DT(9999, 12, 31, 23, 0, 0, 0, "Asia/Kolkata")))
+  f("datetime.max +02:00", RET(DT(9999, 12, 31, 23, 0, 0, 0, "+02:00")))
+  f("[date, datetime]", RET(["list", [["date", 2020, 1, 1], DT(2020, 1, 1, 12, 0, 0, 0, "Pacific/Auckland")]]))
+  f("time", RET(O("time")))
+  f("timedelta", RET(O("timedelta")))
+  # records, record sets, engine objects
+  for n in ("rec", "lookupone", "lookupmissing", "all", "lookuprecords", "lookupnone", "reccol", "recid", "table",
+            "usertable", "alttext", "alttextsub", "pending", "censored", "unmarshallable", "recordstub",
+            "recordsetstub", "raisedexc", "recordlist"):
+    f(n, RET(O(n)))
+  f("[rec, W.all]", RET(["list", [O("rec"), O("all")]]))
+  f("{'r': rec}", RET(["dict", [[S("r"), O("rec")]]]))
+  # errors with hostile args
+  f("1/0", ["raise", "ZeroDivisionError", []])
+  f("bytes.decode error", ["raise", "UnicodeDecodeError5", []])
+  f("ValueError()", ["raise", "ValueError", []])
+  f("ValueError('x')", ["raise", "ValueError", [S("x")]])
+  f("ValueError(MyStr('x'))", ["raise", "ValueError", [SUB("MyStr", S("x"))]])
+  f("ValueError(SelfStr('x'))", ["raise", "ValueError", [SUB("SelfStr", S("x"))]])
+  f("ValueError({1, 2}, 2**70, b'\\xff')", ["raise", "ValueError", [["set", [I(1), I(2)]], I(2 ** 70), B(b"\xff")]])
+  f("ValueError(recursive list)", ["raise", "ValueError", [O("reclist")]])
+  f("ValueError(BadRepr())", ["raise", "ValueError", [O("badrepr")]])
+  f("KeyError(lone surrogate)", ["raise", "KeyError", [S(u"\ud800")]])
+  f("TypeError('x' * 70000)", ["raise", "TypeError", [S("x" * 70000)]])
+  f("exception whose str() is a str subclass", ["raise", "StrErr", []])
+  f("exception whose str() raises", ["raise", "BadStrErr", []])
+  f("exception class named by a str subclass", ["raise", "SubNameErr", []])
+  f("RecursionError()", ["raise", "RecursionError", []])
+  f("exception instance as a value", RET(O("exception")))
+  # generators, functions, classes, odd reprs
+  for n in ("generator", "genexpr", "lambda", "builtin", "class", "localclass", "module", "ellipsis", "notimplemented",
+            "complex", "decimal", "fraction", "type_none", "iter", "dictkeys", "slice", "property", "object",
+            "reprsub", "badrepr", "badeq", "reprlong", "reprnonascii"):
+    f(n, RET(O(n)))
+  f("[ReprSub()]", RET(["list", [O("reprsub")]]))
+  f("{'k': BadRepr()}", RET(["dict", [[S("k"), O("badrepr")]]]))
+  # what Node can put into a data cell: encoded forms with hostile arguments
+  L = lambda *a: ["list", list(a)]
+  w("wire 2**70", I(2 ** 70))
+  w("wire nan", F(float("nan")))
+  w("wire bytes", B(b"\xff\x00"))
+  w("wire lone surrogate", S(u"\ud800"))
+  w("wire ['D', 1e300, 'UTC']", L(S("D"), F(1e300), S("UTC")))
+  w("wire ['D', nan, 'UTC']", L(S("D"), F(float("nan")), S("UTC")))
+  w("wire ['D', 0, 'No/Zone']", L(S("D"), I(0), S("No/Zone")))
+  w("wire ['D', 0]", L(S("D"), I(0)))
+  w("wire ['D', 253402300800, 'UTC']", L(S("D"), I(253402300800), S("UTC")))
+  w("wire ['D', -62135596800, 'Asia/Kolkata']", L(S("D"), I(-62135596800), S("Asia/Kolkata")))
+  w("wire ['D', 1.5, 'America/New_York']", L(S("D"), F(1.5), S("America/New_York")))
+  w("wire ['d', inf]", L(S("d"), F(float("inf"))))
+  w("wire ['d', 86400.5]", L(S("d"), F(86400.5)))
+  w("wire ['d', 'x']", L(S("d"), S("x")))
+  w("wire ['E']", L(S("E")))
+  w("wire ['E', 'ValueError', 'm', 'details', {'u': ['L', 2**70]}]",
+    L(S("E"), S("ValueError"), S("m"), S("details"), ["dict", [[S("u"), L(S("L"), I(2 ** 70))]]]))
+  w("wire ['E', None, None, None, {}]", L(S("E"), ["none"], ["none"], ["none"], ["dict", []]))
+  w("wire ['E', 1, 2, 3, 4]", L(S("E"), I(1), I(2), I(3), I(4)))
+  w("wire ['L']", L(S("L")))
+  w("wire ['L', ['L', ['O', {}]]]", L(S("L"), L(S("L"), L(S("O"), ["dict", []]))))
+  w("wire ['O', {1: 2}]", L(S("O"), ["dict", [[I(1), I(2)]]]))
+  w("wire ['O', {'a': ['d', 0]}]", L(S("O"), ["dict", [[S("a"), L(S("d"), I(0))]]]))
+  w("wire ['O', 5]", L(S("O"), I(5)))
+  w("wire ['R', 'W', 1]", L(S("R"), S("W"), I(1)))
+  w("wire ['R', 'W', 'x']", L(S("R"), S("W"), S("x")))
+  w("wire ['R']", L(S("R")))
+  w("wire ['r', 'W', [1, 'a', None]]", L(S("r"), S("W"), L(I(1), S("a"), ["none"])))
+  w("wire ['r', 'W', 'abc']", L(S("r"), S("W"), S("abc")))
+  w("wire ['U', 'x']", L(S("U"), S("x")))
+  w("wire ['U', ['L', 1]]", L(S("U"), L(S("L"), I(1))))
+  w("wire ['U']", L(S("U")))
+  w("wire ['P']", L(S("P")))
+  w("wire ['C', 1]", L(S("C"), I(1)))
+  w("wire ['l', 'x', {'raw': 'y'}]", L(S("l"), S("x"), ["dict", [[S("raw"), S("y")]]]))
+  w("wire ['X', 1]", L(S("X"), I(1)))
+  w("wire []", L())
+  w("wire [1, 2]", L(I(1), I(2)))
+  w("wire [['L']]", L(L(S("L"))))
+  w("wire {'a': 1}", ["dict", [[S("a"), I(1)]]])
+  w("wire 200-deep ['L', ...]", ["deep", 200, "list"])
+  w("wire 990-deep ['L', ...]", ["deep", 990, "list"])
+  w("wire 1500-deep ['L', ...]", ["deep", 1500, "list"])
+  w("wire 300-deep ['O', ...]", ["deep", 300, "dict"])
+  return c
+
+
+COLTYPES = ["Any", "Text", "Numeric", "Int", "Bool", "Date", "DateTime:America/New_York", "Choice", "ChoiceList",
+            "Ref:W", "RefList:W", "Attachments"]
+
+
+def strategies():
+  from hypothesis import strategies as st
+  ints = st.one_of(st.integers(-3, 3), st.integers(-2 ** 40, 2 ** 40), st.integers(-2 ** 80, 2 ** 80),
+                   st.sampled_from([2 ** 31 - 1, 2 ** 31, -2 ** 31, -2 ** 31 - 1, 2 ** 53, 2 ** 63, 2 ** 64, 2 ** 70,
+                                    -2 ** 70, 10 ** 30, 2 ** 1024])).map(I)
+  floats = st.one_of(st.floats(), st.floats(-10, 10), st.sampled_from([-0.0, 2.0 ** 31, 2.0 ** 53, 1e308, 5e-324])).map(F)
+  texts = st.one_of(st.text(max_size=6), st.text(alphabet=st.characters(), max_size=4),
+                    st.sampled_from(["", "L", "D", "E", "O", "U", "UTC", "W", "a", u"\ud800", "\x00", u"é"]))
+  text = texts.map(S)
+  byts = st.one_of(st.binary(max_size=5), st.sampled_from([b"", b"\xff", b"ab", b"\xc3\xa9"])).map(B)
+  simple = st.one_of(st.just(["none"]), st.booleans().map(lambda b: ["bool", b]), ints, floats, text, byts)
+  dates = st.dates().map(lambda d: ["date", d.year, d.month, d.day])
+  naive = st.datetimes()
+  edge = st.sampled_from([(1, 1, 1, 0, 0, 0, 0), (1, 1, 1, 13, 0, 0, 0), (9999, 12, 31, 23, 59, 59, 999999),
+                          (9999, 12, 31, 9, 0, 0, 0), (9999, 12, 31, 23, 59, 59, 999980)])
+  dts = st.one_of(
+    st.tuples(naive, st.sampled_from(ZONES)).map(
+      lambda p: DT(p[0].year, p[0].month, p[0].day, p[0].hour, p[0].minute, p[0].second, p[0].microsecond, p[1])),
+    st.tuples(edge, st.sampled_from(ZONES)).map(lambda p: DT(*(list(p[0]) + [p[1]]))))
+  objs = st.sampled_from(sorted(OBJECTS)).map(O)
+  subs = st.one_of(
+    st.tuples(st.sampled_from(["MyStr", "SelfStr", "BadStrRepr"]), text).map(lambda p: SUB(p[0], p[1])),
+    st.tuples(st.sampled_from(["MyInt", "IntNoInt"]), ints).map(lambda p: SUB(p[0], p[1])),
+    st.tuples(st.sampled_from(["MyFloat", "FloatNoFloat"]), floats).map(lambda p: SUB(p[0], p[1])),
+    st.tuples(st.sampled_from(["MyBytes", "DecodeSub"]), byts).map(lambda p: SUB(p[0], p[1])))
+  hashable = st.one_of(simple, subs, dates, st.sampled_from(["strenum", "intenum", "enum", "rec", "badeq"]).map(O),
+                       st.lists(simple, max_size=2).map(lambda l: ["tuple", l]))
+  deep = st.tuples(st.sampled_from([10, 100, 200, 400, 980, 1000, 1200]), st.sampled_from(["list", "tuple", "dict"])
+                   ).map(lambda p: ["deep", p[0], p[1]])
+  atoms = st.one_of(simple, simple, subs, subs, dates, dts, dts, objs, objs, deep)
+  key = lambda s: json.dumps(s, sort_keys=True)
+
+  def extend(children):
+    return st.one_of(
+      st.lists(children, max_size=4).map(lambda l: ["list", l]),
+      st.lists(children, max_size=4).map(lambda l: ["tuple", l]),
+      st.lists(st.tuples(hashable, children), max_size=3, unique_by=lambda p: key(p[0])).map(
+        lambda l: ["dict", [list(p) for p in l]]),
+      st.lists(st.tuples(text, children), max_size=3, unique_by=lambda p: key(p[0])).map(
+        lambda l: ["dict", [list(p) for p in l]]),
+      st.lists(hashable, max_size=3, unique_by=key).map(lambda l: ["set", l]),
+      st.lists(hashable, max_size=3, unique_by=key).map(lambda l: ["frozenset", l]),
+      st.tuples(st.sampled_from(["MyList", "MyTuple"]), st.lists(children, max_size=3)).map(
+        lambda p: SUB(p[0], [("list" if p[0] == "MyList" else "tuple"), p[1]])),
+      st.lists(st.tuples(text, children), max_size=2, unique_by=lambda p: key(p[0])).map(
+        lambda l: SUB("MyDict", ["dict", [list(p) for p in l]])))
+  values = st.recursive(atoms, extend, max_leaves=6)
+  raises = st.tuples(st.sampled_from(sorted(RAISABLE)), st.lists(values, max_size=2)).map(
+    lambda p: ["raise", p[0], p[1]])
+  tops = st.one_of(values.map(RET), values.map(RET), values.map(RET), raises)
+
+  # what Node can send: plain data, often shaped like an encoded object
+  wsimple = st.one_of(st.just(["none"]), st.booleans().map(lambda b: ["bool", b]), ints, floats, text, byts)
+  codes = st.sampled_from(["D", "d", "E", "L", "O", "R", "r", "U", "P", "C", "l", "S", "V", "k", "X", ""]).map(S)
+
+  def wextend(children):
+    lst = st.lists(children, max_size=4)
+    return st.one_of(
+      lst.map(lambda l: ["list", l]),
+      st.tuples(codes, lst).map(lambda p: ["list", [p[0]] + p[1]]),
+      st.tuples(codes, lst).map(lambda p: ["list", [p[0]] + p[1]]),
+      st.tuples(st.one_of(ints, floats), st.sampled_from(ZONES + ["No/Zone"])).map(
+        lambda p: ["list", [S("D"), p[0], S(p[1])]]),
+      st.one_of(ints, floats).map(lambda x: ["list", [S("d"), x]]),
+      st.tuples(text, st.one_of(text, st.just(["none"])), st.one_of(text, st.just(["none"])), children).map(
+        lambda p: ["list", [S("E"), p[0], p[1], p[2], ["dict", [[S("u"), p[3]]]]]]),
+      st.tuples(st.sampled_from(["W", "T", ""]), children).map(lambda p: ["list", [S("R"), S(p[0]), p[1]]]),
+      st.tuples(st.sampled_from(["W", "T", ""]), children).map(lambda p: ["list", [S("r"), S(p[0]), p[1]]]),
+      st.lists(st.tuples(st.one_of(text, text, ints, st.just(["none"])), children), max_size=3,
+               unique_by=lambda p: key(p[0])).map(lambda l: ["dict", [list(p) for p in l]]),
+      st.lists(st.tuples(text, children), max_size=3, unique_by=lambda p: key(p[0])).map(
+        lambda l: ["list", [S("O"), ["dict", [list(p) for p in l]]]]))
+  wires = st.recursive(st.one_of(wsimple, deep.filter(lambda d: d[2] != "tuple")), wextend, max_leaves=6)
+  coltypes = st.one_of(st.just("Any"), st.just("Any"), st.sampled_from(COLTYPES))
+  return st.one_of(
+    st.tuples(st.just("formula"), tops, coltypes),
+    st.tuples(st.just("formula"), tops, coltypes),
+    st.tuples(st.just("cell"), wires, coltypes))
+
+
+def generate(seed_value, count):
+  import warnings
+  from hypothesis import given, settings, seed, HealthCheck, Phase
+  warnings.simplefilter("ignore")
+  out = []
+
+  @seed(seed_value)
+  @settings(max_examples=count, database=None, deadline=None, phases=[Phase.generate],
+            suppress_health_check=list(HealthCheck))
+  @given(strategies())
+  def collect(x):
+    out.append({"mode": x[0], "value": x[1], "coltype": x[2], "src": "hyp"})
+  collect()   # pylint: disable=no-value-for-parameter
+  for j, o in enumerate(out):
+    o["id"] = "hyp %d/%d" % (seed_value, j)
+  return out
+
+
+def catalogue_inputs(coltypes):
+  out = []
+  for name, mode, value in catalogue():
+    for t in coltypes:
+      out.append({"mode": mode, "value": value, "coltype": t, "src": "cat", "id": "%s in %s" % (name, t)})
+  return out
+
+
+# ---------------------------------------------------------------------------------------------
+def main():
+  args = json.loads(sys.argv[1])
+  if args.get("catalogue_out"):
+    json.dump(catalogue_inputs(args["coltypes"]), open(args["catalogue_out"], "w"))
+    return
+  inputs = []
+  for inp in json.load(open(args["inp"])):
+    if "hyp" in inp:
+      inputs.extend(generate(inp["hyp"], inp["n"]))
+    else:
+      inputs.append(inp)
+  local = None
+  sess = None
+  cases = []
+  k = 0
+  restarts = 0
+  for inp in inputs:
+    if sess is None or sess.srv.dead:
+      if sess is not None:
+        sess.close()
+      sess = Session()
+      restarts += 1
+    if "script" in inp:
+      calls = run_script(sess, inp["script"])
+      cases.append({"src": "enum", "id": "script " + " ".join(inp["script"]), "spec": json.dumps(inp, sort_keys=True),
+                    "calls": calls, "rts": [], "local_exc": ""})
+      continue
+    if local is None or local.stale:
+      local = Local()
+    k += 1
+    case = run_value(sess, local, inp, k)
+    cases.append(case)
+    last = case["calls"][-1] if case["calls"] else None
+    if last is None or last.get("step") != "remove" or last["w0"] == last["w1"] or last["w1"] == "?":
+      # the table of this case may still be there: do not let it leak into the next case
+      sess.close()
+      sess = None
+  if sess is not None:
+    sess.close()
+  json.dump(cases, open(args["out"], "w"))
+
+
+if __name__ == "__main__":
+  main()
